@@ -1016,3 +1016,173 @@ Section LatticeRuns.
     eapply to_fillid_flat_size; eauto.
   Qed.
 End LatticeRuns.
+
+(* ---------------------------------------------------------------------- *)
+(* 11. Faulty keyword anywhere behind options the loop steps over           *)
+(* ---------------------------------------------------------------------- *)
+Section Prefix.
+  Context {T : Type} (S : Scalar T).
+
+  (* options in front of the faulty keyword that the keyword loop steps over
+     without looking ahead: IMP:x=v, U=n, LAT=1|2, and tokens that are no
+     keyword at all *)
+  Inductive skippable : list (tok (T:=T)) -> nat -> Prop :=
+  | sk_nil : skippable [] 0
+  | sk_imp e v l n :
+      prefix "imp" (tsp e) = true -> float_lit (tsp v) = true ->
+      skippable l n -> skippable (e :: v :: l) (Datatypes.S n)
+  | sk_lat e v l n z :
+      prefix "imp" (tsp e) = false -> contains_sub "fill" (tsp e) = false ->
+      contains_sub "lat" (tsp e) = true -> py_int (tsp v) = Some z ->
+      ((z =? 1)%Z || (z =? 2)%Z) = true ->
+      skippable l n -> skippable (e :: v :: l) (Datatypes.S n)
+  | sk_u e v l n :
+      prefix "imp" (tsp e) = false -> contains_sub "fill" (tsp e) = false ->
+      contains_sub "lat" (tsp e) = false -> contains_sub "trcl" (tsp e) = false ->
+      contains_char "u" (tsp e) = true -> float_lit (tsp v) = true ->
+      skippable l n -> skippable (e :: v :: l) (Datatypes.S n)
+  | sk_other e l n :
+      prefix "imp" (tsp e) = false -> contains_sub "fill" (tsp e) = false ->
+      contains_sub "lat" (tsp e) = false -> contains_sub "trcl" (tsp e) = false ->
+      contains_char "u" (tsp e) = false ->
+      (contains_sub "rho" (tsp e) || contains_sub "mat" (tsp e)) = false ->
+      skippable l n -> skippable (e :: l) (Datatypes.S n).
+
+  Lemma skippable_steps pre n : skippable pre n -> (n <= List.length pre)%nat.
+  Proof. induction 1; simpl; lia. Qed.
+
+  Lemma parse_kw_skip trs pre n :
+    skippable pre n ->
+    forall f suffix k, exists k', parse_kw S (n + Datatypes.S f) trs (pre ++ suffix) k
+                                 = parse_kw S (Datatypes.S f) trs suffix k'.
+  Proof.
+    induction 1 as [|e v l n H1 H2 Hs IH|e v l n z H1 H2 H3 H4 H5 Hs IH
+                    |e v l n H1 H2 H3 H4 H5 H6 Hs IH|e l n H1 H2 H3 H4 H5 H6 Hs IH];
+      intros f suffix k.
+    - exists k. reflexivity.
+    - change (Datatypes.S n + Datatypes.S f)%nat with (Datatypes.S (n + Datatypes.S f)).
+      cbn [app parse_kw]. cbv zeta. rewrite H1, H2. apply IH.
+    - change (Datatypes.S n + Datatypes.S f)%nat with (Datatypes.S (n + Datatypes.S f)).
+      cbn [app parse_kw]. cbv zeta. rewrite H1, H2, H3, H4, H5. apply IH.
+    - change (Datatypes.S n + Datatypes.S f)%nat with (Datatypes.S (n + Datatypes.S f)).
+      cbn [app parse_kw]. cbv zeta. rewrite H1, H2, H3, H4, H5, H6. apply IH.
+    - change (Datatypes.S n + Datatypes.S f)%nat with (Datatypes.S (n + Datatypes.S f)).
+      cbn [app parse_kw]. cbv zeta. rewrite H1, H2, H3, H4, H5, H6. apply IH.
+  Qed.
+
+  (* a keyword-level rejection that holds for every state and every positive
+     fuel carries over to the whole option list *)
+  Lemma parse_cell_after_prefix trs imps rank lat pre n suffix err :
+    skippable pre n ->
+    (forall f k, parse_kw S (Datatypes.S f) trs suffix k = Err err) ->
+    is_ok (parse_cell S trs imps rank lat (pre ++ suffix)) = false.
+  Proof.
+    intros Hs Hbad. unfold parse_cell.
+    pose proof (skippable_steps pre n Hs) as Hn.
+    assert (Hf : Datatypes.S (List.length (pre ++ suffix)%list)
+                 = (n + Datatypes.S (List.length (pre ++ suffix)%list - n))%nat).
+    { rewrite app_length. lia. }
+    rewrite Hf.
+    destruct (parse_kw_skip trs pre n Hs (List.length (pre ++ suffix)%list - n) suffix kws0) as [k' Hk'].
+    rewrite Hk', Hbad. reflexivity.
+  Qed.
+
+  Theorem run_inline_trcl_m_rejected_anywhere (d : deckm (T:=T)) c (pre : list (tok (T:=T))) n e ps rest :
+    In c (d_cells d) -> c_toks c = (pre ++ e :: ps ++ rest)%list -> skippable pre n ->
+    prefix "imp" (tsp e) = false -> contains_sub "fill" (tsp e) = false ->
+    contains_sub "lat" (tsp e) = false -> contains_sub "trcl" (tsp e) = true ->
+    forallb numeric_lead ps = true -> forallb (fun p => float_lit (tsp p)) ps = true ->
+    stops rest -> List.length ps = 13%nat ->
+    seqb S (last (map tval ps) (s1 S)) (s1 S) = false ->
+    is_ok (validate S d) = false.
+  Proof.
+    intros Hin Htoks Hpre H1 H2 H3 H4 Hn Hf Hs Hl Hm.
+    apply (cell_fault_rejected S d c Hin). intros trs imps rank lat _. rewrite Htoks.
+    eapply parse_cell_after_prefix; [exact Hpre|].
+    intros f k. apply kw_trcl_m_rejected; assumption.
+  Qed.
+
+  Theorem run_inline_fill_m_rejected_anywhere (d : deckm (T:=T)) c (pre : list (tok (T:=T))) n e u ps rest :
+    In c (d_cells d) -> c_toks c = (pre ++ e :: u :: ps ++ rest)%list -> skippable pre n ->
+    prefix "imp" (tsp e) = false -> contains_sub "fill" (tsp e) = true ->
+    has_colon u = false -> float_lit (tsp u) = true ->
+    forallb numeric_lead ps = true -> forallb (fun p => float_lit (tsp p)) ps = true ->
+    stops rest -> List.length ps = 13%nat ->
+    seqb S (last (map tval ps) (s1 S)) (s1 S) = false ->
+    is_ok (validate S d) = false.
+  Proof.
+    intros Hin Htoks Hpre H1 H2 Hc Hu Hn Hf Hs Hl Hm.
+    apply (cell_fault_rejected S d c Hin). intros trs imps rank lat _. rewrite Htoks.
+    eapply parse_cell_after_prefix; [exact Hpre|].
+    intros f k. apply kw_fill_m_rejected; assumption.
+  Qed.
+
+  Theorem run_fill_array_short_rejected_anywhere (d : deckm (T:=T)) c (pre : list (tok (T:=T))) n e first rs nums b :
+    In c (d_cells d) -> c_toks c = (pre ++ e :: first :: rs ++ nums)%list -> skippable pre n ->
+    prefix "imp" (tsp e) = false -> contains_sub "fill" (tsp e) = true ->
+    has_colon first = true -> forallb has_colon rs = true ->
+    Forall (fun t => has_colon t = false) nums -> Forall (plain (T:=T)) nums ->
+    parse_ranges (map tsp (first :: rs)) = Ok b ->
+    (Z.of_nat (List.length nums) < bounds_size b)%Z ->
+    is_ok (validate S d) = false.
+  Proof.
+    intros Hin Htoks Hpre H1 H2 Hc Hrs Hnc Hp Hb Hlt.
+    apply (cell_fault_rejected S d c Hin). intros trs imps rank lat _. rewrite Htoks.
+    eapply parse_cell_after_prefix with (err := EParseCell); [exact Hpre|].
+    intros f k. cbn [parse_kw]. cbv zeta. rewrite H1, H2.
+    rewrite (fill_array_short_rejected S _ trs first rs nums b Hc Hrs Hnc Hp Hb Hlt). reflexivity.
+  Qed.
+End Prefix.
+
+(* ---------------------------------------------------------------------- *)
+(* 12. Summary: what a finished run excludes                                *)
+(* ---------------------------------------------------------------------- *)
+Section Summary.
+  Context {T : Type} (S : Scalar T).
+
+  (* the faults whose absence every finished run guarantees, whatever the card
+     they would sit on *)
+  Theorem finished_run_is_clean (d : deckm (T:=T)) :
+    validate S d = Ok tt ->
+    (* --lattice arguments *)
+    (forall o, In o (d_latopts d) -> latopt_wf o = true) /\
+    (* TR cards *)
+    (forall t, In t (d_trs d) -> List.length (tr_entries t) = 13%nat ->
+               seqb S (last (tr_entries t) (s1 S)) (s1 S) = true) /\
+    (* surface cards *)
+    (forall s, In s (d_surfs d) ->
+       (In (sf_mn s) macros /\ In (List.length (sf_params s)) (macro_arities (sf_mn s))) \/
+       (In (sf_mn s) elementary /\ elem_accepts (sf_mn s) (List.length (sf_params s)) = true)) /\
+    (* IMP cards *)
+    (forall rows, expand_cards (d_imps d) = Ok rows ->
+       forall r1 r2, In r1 rows -> In r2 rows -> List.length r1 = List.length r2) /\
+    (* material cards *)
+    (d_skipcomp d = false ->
+     forall m l, In m (d_mats d) -> mat_pairs m = Ok l ->
+       forall p q, In p l -> In q l -> frac_negative (snd p) = frac_negative (snd q)).
+  Proof.
+    intros H.
+    assert (Hok : is_ok (validate S d) = true) by (rewrite H; reflexivity).
+    repeat split.
+    - intros o Hin. destruct (latopt_wf o) eqn:E; [reflexivity|].
+      rewrite (run_latopt_malformed_rejected S d o Hin E) in Hok. discriminate.
+    - intros t Hin Hl. destruct (seqb S (last (tr_entries t) (s1 S)) (s1 S)) eqn:E; [reflexivity|].
+      rewrite (run_tr_card_m_rejected S d t Hin Hl E) in Hok. discriminate.
+    - intros s Hin.
+      destruct (in_dec string_dec (sf_mn s) macros) as [Hm|Hm].
+      + left. split; [exact Hm|].
+        destruct (in_dec Nat.eq_dec (List.length (sf_params s)) (macro_arities (sf_mn s))) as [Ha|Ha]; [exact Ha|].
+        rewrite (run_macro_arity_rejected S d s Hin Hm Ha) in Hok. discriminate.
+      + destruct (in_dec string_dec (sf_mn s) elementary) as [He|He].
+        * right. split; [exact He|].
+          destruct (elem_accepts (sf_mn s) (List.length (sf_params s))) eqn:E; [reflexivity|].
+          rewrite (run_surface_arity_rejected S d s Hin He E) in Hok. discriminate.
+        * rewrite (run_unknown_mnemonic_rejected S d s Hin Hm He) in Hok. discriminate.
+    - intros rows Hrows r1 r2 H1 H2.
+      destruct (Nat.eq_dec (List.length r1) (List.length r2)) as [E|E]; [exact E|].
+      rewrite (run_imp_unequal_rejected S d rows r1 r2 Hrows H1 H2 E) in Hok. discriminate.
+    - intros Hs m l Hin Hl p q Hp Hq.
+      destruct (bool_dec (frac_negative (snd p)) (frac_negative (snd q))) as [E|E]; [exact E|].
+      rewrite (run_mixed_fractions_rejected S d m l p q Hs Hin Hl Hp Hq E) in Hok. discriminate.
+  Qed.
+End Summary.
